@@ -520,7 +520,29 @@ def framing_stream(ctx: Ctx, book: Book, pool: dict, reps: int) -> None:
             elif m.startswith('ok') and res != 'ok' and origin.startswith('own') and origin != 'own-truncated' and kind != 'vpls':
                 # the model only claims the framing level; bytes ExaBGP produced itself must also pass the value level
                 pass
-        # oracle, independent of the model: what ExaBGP encoded must be taken back, one NLRI at a time
+        # oracle, independent of the model: whatever the decoder ACCEPTED (also a frame the model refuses), encoded
+        # again, is taken back by the decoder as that one object and nothing else
+        if res == 'ok' and x is not None and x is not NLRI.INVALID:
+            try:
+                again = bytes(x.pack_nlri(R.Sess.get(ap)))
+            except Exception:  # noqa: BLE001
+                again = None
+            if again and not (ap and not R.Sess.get(True).addpath.send(A, S)):
+                what = None
+                try:
+                    y, rest2 = NLRI.unpack_nlri(A, S, again, Action.ANNOUNCE, ap, R.Negotiated.UNSET)
+                    if y is NLRI.INVALID:
+                        what = 'its own encoding is decoded as INVALID'
+                    elif bytes(rest2):
+                        what = f'its own encoding {hx(again)} is decoded as one NLRI followed by {len(bytes(rest2))} more bytes'
+                    elif y.index() != x.index():
+                        what = f'its own encoding {hx(again)} is decoded as another route'
+                except Exception as e:  # noqa: BLE001
+                    what = f'its own encoding {hx(again)} is refused ({R.err_name(e)})'
+                if what:
+                    ctx.count('framing:decoded-object-does-not-round-trip')
+                    book.add('roundtrip-law', cls, 'framing:decode(encode(decoded))', origin.split('+')[0], data, f'family {fam}: decoded from {hx(data[: len(data) - len(rest)])[:80]}, {what}', {'stream': 'framing', 'afi': afi, 'safi': safi, 'addpath': ap, 'data': hx(data)})
+        # what ExaBGP encoded must be taken back, one NLRI at a time
         if first is not None and origin in ('own', 'own+own'):
             what = None
             if res != 'ok':
